@@ -173,6 +173,22 @@ def oracle(c):
                     return f"{f!r}: user objects named like the helpers change the matrix on new data"
             except Exception:  # noqa
                 pass
+    # the helpers are recomputed from the frame they are given, every time: predict, edit the SAME frame
+    # object in place, predict again
+    if d is not None and d.common is not None and not kind.startswith("binary"):
+        try:
+            work = new.copy()
+            d.common.evaluate_new_data(work)
+            for col_ in ("x", "z", "w", "n_trials"):
+                if col_ in work.columns:
+                    work[col_] = work[col_] + 1
+            again = np.asarray(d.common.evaluate_new_data(work).design_matrix, dtype=float)
+            fresh = np.asarray(d.common.evaluate_new_data(work.copy()).design_matrix, dtype=float)
+            if not np.array_equal(again, fresh, equal_nan=True):
+                return (f"{f!r}: evaluating a frame, editing it in place and evaluating it again returns the values of "
+                        f"its earlier contents")
+        except Exception:  # noqa
+            pass
     # aliases are exact synonyms
     if c["alias"]:
         d2, err2 = build(c["alias"])
